@@ -112,8 +112,55 @@ def candidates(path, text):
                 out.append(((i, j), None, 'del-multiline-stmt'))
                 i = j
         i += 1
+    # ---- third operator set: copy-paste slips -- `self.<field>` replaced by a sibling field of the same type,
+    # and two adjacent arguments of a call exchanged
+    sib = sibling_fields()
+    for i, l in enumerate(lines):
+        st = l.strip()
+        if re.match(r'^(pub )?mod tests? \{', st):
+            break
+        if not l.startswith('\t\t') or st.startswith(('//', '#', '*', '/*', '# ')):
+            continue
+        for m in re.finditer(r'self\.([a-z_][a-z0-9_]*)\b(?!\()', l):
+            f = m.group(1)
+            alts = sib.get(f)
+            if alts:
+                g = alts[(i + len(f)) % len(alts)]
+                out.append((i, l[:m.start(1)] + g + l[m.end(1):], 'field-swap:%s->%s' % (f, g)))
+                break
+        m = re.search(r'\(([a-z_][\w\.]*), ([a-z_][\w\.]*)\)', l)
+        if m and m.group(1) != m.group(2) and not st.startswith(('fn ', 'pub fn', 'let (', 'for (', 'Some((', 'Ok((')) and '|' not in l:
+            out.append((i, l[:m.start()] + '(%s, %s)' % (m.group(2), m.group(1)) + l[m.end():], 'arg-swap'))
     # dedupe no-ops
     return [(i, n, op) for i, n, op in out if n is None or n != lines[i]]
+
+
+_SIB = None
+
+
+def sibling_fields():
+    """{field name: [other field names of the same struct with the same type]} over kira's structs (from the facts)."""
+    global _SIB
+    if _SIB is None:
+        _SIB = {}
+        try:
+            sys.path.insert(0, VERIF)
+            from kvlib.core import build_facts
+            j = json.load(open(build_facts('default')))
+            for a in j['adts']:
+                if a['kind'] != 'Struct' or not a.get('file', '').startswith('crates/kira/'):
+                    continue
+                fs = a['variants'][0]['fields']
+                for f in fs:
+                    alts = [g['name'] for g in fs if g['name'] != f['name'] and g['ty'] == f['ty'] and not g['name'].isdigit()]
+                    if alts and not f['name'].isdigit():
+                        _SIB.setdefault(f['name'], [])
+                        for x in alts:
+                            if x not in _SIB[f['name']]:
+                                _SIB[f['name']].append(x)
+        except Exception as e:
+            print('sibling_fields failed:', e)
+    return _SIB
 
 
 def sh(cmd, cwd, env, timeout):
